@@ -21,14 +21,14 @@ MANIFEST = {
 FUNCTIONS = ["ginjax.ml.stopping_conditions.StopCondition.__init__", "ginjax.ml.stopping_conditions.EpochStop.__init__",
              "ginjax.ml.stopping_conditions.EpochStop.stop", "ginjax.ml.stopping_conditions.TrainLoss.__init__",
              "ginjax.ml.stopping_conditions.TrainLoss.stop", "ginjax.ml.stopping_conditions.ValLoss.__init__",
-             "ginjax.ml.stopping_conditions.ValLoss.stop", "ginjax.ml.stopping_conditions.StopCondition.log_status (inlined, print inert)"]
+             "ginjax.ml.stopping_conditions.ValLoss.stop", "ginjax.ml.stopping_conditions.StopCondition.log_status (inlined, print inert)", "ginjax.ml.training.train (epoch loop, unrolled 0..3 epochs: bounded)"]
 TRUSTED = ["CPython executes the concrete part of the real source; proxies SInt/SReal/SBool (gvc/sym.py)",
            "z3 decides the linear real/integer VCs", "float(x) of a numpy scalar / 0-d jax array is exact (assumed)",
            "Hoare-style induction over the history (meta-argument): constructor establishes Inv, every stop() preserves it",
            "spec: gvc/specs/stop_spec.py transcribes the statement"]
 ASSUMPTIONS = ["losses are real numbers (no NaN, no IEEE rounding): comparisons are over the reals",
                "min_delta >= 0, patience >= 0 (pre-condition)", "print / log_status are inert",
-               "the train() loop itself is not under contract here; that it passes 0-d jax arrays is covered by the 'Jax0d' representation and by the bounded native stand-in"]
+               "the epoch loop of train() is verified by unrolling it for 0..3 epochs (bounded in the number of epochs; get_batches / train_step / map_loss_in_batches replaced by stubs returning opaque values)"]
 EXPLANATION = ("Deductive: every path of the real TrainLoss.stop / ValLoss.stop / EpochStop.stop is executed symbolically "
                "(patience, epochs, counters symbolic Int; losses, min_delta symbolic Real; +inf initial best) and each "
                "post-condition clause is discharged by z3 against the spec transition; with the constructor VC this is an "
@@ -63,6 +63,10 @@ def jobs(tier):
     for verbose in [0, 1, 2]:
         out.append(("gvc.props.c19", "ob_epoch", {"verbose": verbose}))
     out.append(("gvc.props.c19", "ob_lemmas", {}))
+    for k in [0, 1, 2, 3]:
+        for v in [False, True]:
+            out.append(("gvc.props.c19", "ob_train_loop", {"k": k, "validation": v}))
+    out.append(("gvc.props.c19", "ob_train_vallos_requires_validation", {}))
     return out
 
 
@@ -297,3 +301,108 @@ def ob_lemmas():
           z3.If(improve, l, b) == z3.If(l < b, l, b))
     lemma("Inv is preserved (since' >= 0 and best finite after any loss)", inv, z3.And(since2 >= 0, z3.Not(z3.And(binf, z3.Not(improve)))))
     return obs
+
+
+def ob_train_loop(k, validation):
+    """the epoch loop of ml.train, unrolled for k epochs (BOUNDED in k; every quantity inside an epoch is symbolic):
+    the stop condition is consulted before every epoch with (model after the last step, number of completed epochs,
+    mean of that epoch's batch losses as a 0-d array, validation loss or None, time); before the first epoch both losses
+    are None; the function returns stop_condition.best_model"""
+    from .. import arr
+    T = load()["ginjax.ml.training"]
+    sc = _sc()
+    nb = 2
+    name = f"C19/train/epochs={k},validation={validation}"
+    structure = dict(epochs_unrolled=k, validation=validation, batches_per_epoch=nb, bounded_in="number of epochs")
+
+    def body():
+        sym.reset(todo=[])
+        log = {"stop": [], "steps": [], "val": []}
+
+        class Spy(sc.StopCondition):
+            def stop(self, model, current_epoch, train_loss, val_loss, epoch_time):
+                log["stop"].append((model, current_epoch, train_loss, val_loss))
+                if len(log["stop"]) == 2:
+                    self.best_model = "BEST"
+                return len(log["stop"]) > k
+
+        def get_batches(mis, batch_size, key, devices=None):
+            return [[f"xb{j}" for j in range(nb)], [f"yb{j}" for j in range(nb)]]
+
+        def train_step(map_and_loss, model, optim, opt_state, x, y, aux):
+            n = len(log["steps"])
+            lv = arr.source(f"loss{n}", [])
+            log["steps"].append((model, x, y, lv))
+            return f"model{n + 1}", opt_state, lv, aux
+
+        def map_loss_in_batches(map_and_loss, model, x, y, batch_size, key, devices=None, aux_data=None):
+            v = arr.source(f"val{len(log['val'])}", [])
+            log["val"].append((model, v))
+            return v
+
+        class Opt:
+            def init(self, p):
+                return "opt_state"
+
+        import sys as _s
+        eqx = _s.modules["equinox"]
+        saved = {n_: T.__dict__[n_] for n_ in ["get_batches", "train_step", "map_loss_in_batches"]}
+        saved_filter = eqx.__dict__.get("filter")
+        T.__dict__.update(get_batches=get_batches, train_step=train_step, map_loss_in_batches=map_loss_in_batches)
+        eqx.filter = lambda m, f: m
+        try:
+            spy = Spy()
+            res = T.train("X", "Y", "map_and_loss", "model0", ("key", 0), spy, 4, Opt(),
+                          "VX" if validation else None, "VY" if validation else None, None, ["dev"], "AUX")
+        finally:
+            T.__dict__.update(saved)
+            eqx.filter = saved_filter
+        calls = log["stop"]
+        if len(calls) != k + 1:
+            return "refuted", f"stop() consulted {len(calls)} times for {k} epochs", None
+        if calls[0][1] != 0 or calls[0][2] is not None or calls[0][3] is not None or calls[0][0] != "model0":
+            return "refuted", f"before the first epoch stop() must see (model0, 0, None, None), got {calls[0]!r}", None
+        for i in range(1, k + 1):
+            model, ep, tl, vl = calls[i]
+            if ep != i or isinstance(ep, bool):
+                return "refuted", f"call {i}: current_epoch = {ep!r}", None
+            if model != f"model{i * nb}":
+                return "refuted", f"call {i}: model passed is {model!r}, the model after the last step is model{i * nb}", None
+            if not (isinstance(tl, arr.SArray) and tl.ndim == 0):
+                return "refuted", f"call {i}: the train loss is passed as {type(tl).__name__}, the loop is specified to pass a 0-d array", None
+            exp = 0
+            for j in range((i - 1) * nb, i * nb):
+                exp = arr.t_bin("add", exp, log["steps"][j][3].elem(()))
+            exp = arr.t_bin("div", exp, nb)
+            st, m = sym.refute_or_prove(arr.t_eq(tl.elem(()), exp))
+            if st != "proved":
+                return ("refuted" if st == "refuted" else "undecided"), f"call {i}: train loss is not the mean of the epoch's batch losses", m
+            if validation:
+                if not (isinstance(vl, arr.SArray) and vl is log["val"][i - 1][1]) or log["val"][i - 1][0] != model:
+                    return "refuted", f"call {i}: validation loss is not the one computed for this epoch's model", None
+            elif vl is not None:
+                return "refuted", f"call {i}: a validation loss without validation data", None
+        best = "BEST" if k >= 1 else "model0"
+        if res[0] != best or res[1] != "AUX":
+            return "refuted", f"train returned {res[0]!r}, stop_condition.best_model is {best!r}", None
+        return "proved", f"{k} epochs, {len(log['steps'])} steps", None
+
+    o = guard(name + "/ensures:stop-condition-protocol", "ensures", body, structure)
+    o["replay"] = dict(cls="train", k=k, validation=validation)
+    return [o]
+
+
+def ob_train_vallos_requires_validation():
+    T = load()["ginjax.ml.training"]
+    sc = _sc()
+
+    def body():
+        sym.reset(todo=[])
+        try:
+            T.train("X", "Y", "f", "m", ("key", 0), sc.ValLoss(), 4, object())
+        except ValueError:
+            return "proved", "ValueError", None
+        except Exception as ex:
+            return "refuted", f"raises {type(ex).__name__} instead of ValueError", None
+        return "refuted", "ValLoss without validation data is accepted", None
+    return [guard("C19/train/rejects:ValLoss-without-validation-data", "rejects", body)]
